@@ -172,6 +172,46 @@ func (in *input) String() string {
 	return b.String()
 }
 
+// shape is a coarse canonical signature of an input that does not depend on how the stores are
+// numbered: the multiset of per-store role transitions (origin role -> requested role), plus
+// operation kind and feature level. Leader position, store states, pending marks and flags are
+// left out on purpose: the class must be small enough to list as a known finding and still
+// separate different planner paths.
+func shape(in *input) string {
+	type t struct{ o, g string }
+	m := map[uint64]*t{}
+	get := func(s uint64) *t {
+		if m[s] == nil {
+			m[s] = &t{o: "-", g: "-"}
+		}
+		return m[s]
+	}
+	for _, p := range in.Origin {
+		get(p.S).o = roleStr[p.R]
+	}
+	for _, p := range in.Target {
+		get(p.S).g = roleStr[p.R]
+	}
+	for _, r := range in.Roles {
+		get(r.S).g = r.Role
+	}
+	for _, a := range []uint64{in.A, in.B, in.C} {
+		if a != 0 {
+			get(a).g += "#"
+		}
+	}
+	var l []string
+	for _, x := range m {
+		if x.o == "-" && x.g == "-" {
+			continue
+		}
+		l = append(l, x.o+">"+x.g)
+	}
+	sort.Strings(l)
+	f := []string{"joint", "demote-only", "no-joint"}[in.Env.Feature]
+	return fmt.Sprintf("%s/%s[%s]", in.Kind, f, strings.Join(l, " "))
+}
+
 // ---------------------------------------------------------------- cluster
 
 var farFuture = time.Now().Add(1000 * time.Hour)
@@ -511,8 +551,57 @@ func (rn *runner) simulate(in *input, op *operator.Operator, r *regionsim.Region
 			path = "/joint"
 		}
 	}
+	// ... and so is the local context of the failing step: its kind, what the store it acts on holds
+	// and is asked to hold, and the next two steps relative to that store. A listed known finding
+	// therefore names one planner path and does not hide a different plan failing the same way.
+	cur := -1
+	stepStore := func(st operator.OpStep) uint64 {
+		switch a := st.(type) {
+		case operator.AddLearner:
+			return a.ToStore
+		case operator.AddLightLearner:
+			return a.ToStore
+		case operator.AddPeer:
+			return a.ToStore
+		case operator.AddLightPeer:
+			return a.ToStore
+		case operator.PromoteLearner:
+			return a.ToStore
+		case operator.DemoteFollower:
+			return a.ToStore
+		case operator.RemovePeer:
+			return a.FromStore
+		case operator.TransferLeader:
+			return a.ToStore
+		}
+		return 0
+	}
+	context := func() string {
+		feat := []string{"joint", "demote-only", "no-joint"}[in.Env.Feature]
+		if cur < 0 || cur >= op.Len() {
+			return feat + ":end"
+		}
+		st := op.Step(cur)
+		store := stepStore(st)
+		have, want := "-", "-"
+		if p := r.StorePeer(store); p != nil {
+			have = roleStr[p.Role]
+		}
+		if role, ok := exp.peers[store]; ok {
+			want = roleStr[role]
+		}
+		c := fmt.Sprintf("%s:%s[%s>%s]", feat, stepType(st), have, want)
+		for k := cur + 1; k <= cur+2 && k < op.Len(); k++ {
+			rel := "other"
+			if s2 := stepStore(op.Step(k)); s2 == store && store != 0 {
+				rel = "same"
+			}
+			c += "," + stepType(op.Step(k)) + "@" + rel
+		}
+		return c
+	}
 	bad := func(key, f string, a ...interface{}) *violation {
-		key += path
+		key += path + "|" + context()
 		if os.Getenv("VERIF_C08_SPLIT") != "" {
 			nonUp := 0
 			for _, st := range in.Env.States {
@@ -529,6 +618,7 @@ func (rn *runner) simulate(in *input, op *operator.Operator, r *regionsim.Region
 	rn.lastLen = op.Len()
 	for i := 0; i < op.Len(); i++ {
 		step := op.Step(i)
+		cur = i
 		typ := stepType(step)
 		if rn.detail {
 			trace = append(trace, step.String())
@@ -1220,6 +1310,8 @@ func runShard(sc *scope, shard, n int, deadline time.Time) *result {
 		}
 		v, trace := rn.eval(in, cc.get(in.Env))
 		if v != nil {
+			// the key names the class of input that fails (store numbering abstracted away), so
+			// that a listed known finding does not hide a different failing input
 			for _, o := range res.Viol {
 				if o.Key == v.Key {
 					return
